@@ -1,5 +1,7 @@
 import ComposeVerif.Props.C16Load
 import ComposeVerif.Model.EnvLayersSites
+import ComposeVerif.Model.Pipeline
+import ComposeVerif.Lemmas.C11KV
 /-!
 # C16 — the composed clause (round 6)
 
@@ -284,5 +286,225 @@ theorem relocation_final (ρ : Str → Str) (fs fs' : FS) (h : FS.Relocates ρ f
     simp only [Except.map, Except.ok.injEq] at hok
     subst hok
     exact env_precedence penv fs d s s1 hwf hd h1 k
+
+
+/-! ## the composed pipeline (`Model/Pipeline.lean`): its two stages that resolve value-less entries are C16's -/
+section PipelineBridge
+open CV CV.Val
+
+
+
+theorem lookup_penvOf (env : List (String × String)) (s : String) :
+    lookup s.toList (penvOf env) = (env.lookup s).map String.toList := by
+  induction env with
+  | nil => rfl
+  | cons e r ih =>
+    obtain ⟨k, b⟩ := e
+    by_cases h : s = k
+    · subst h; simp [penvOf, lookup, List.lookup_cons]
+    · have h' : ¬ k.toList = s.toList := fun e => h (String.toList_inj.1 e).symm
+      have hb : (s == k) = false := by simpa using h
+      simp only [penvOf, List.map_cons, lookup, h', if_false, List.lookup_cons, hb]
+      exact ih
+
+/-- **pipeline_item.**  One element of `resolveServicesEnvironment` as the composed pipeline has it (on the tree) is
+    C16's `resolveSeqItem` on the tokenised element: the *whole text* is looked up. -/
+theorem pipeline_item (env : List (String × String)) (it : Item) :
+    Pipeline.resolveEnvItem env it.val = some (resolveSeqItem (penvOf env) it).val := by
+  unfold Pipeline.resolveEnvItem Item.val resolveSeqItem
+  have hl := lookup_penvOf env (String.ofList it.text)
+  simp only [String.toList_ofList] at hl
+  rw [hl]
+  cases hf : List.lookup (String.ofList it.text) env with
+  | none => simp only [hf, Option.map_none]
+  | some found =>
+    simp only [hf, Option.map_some, Option.some.injEq, Val.str.injEq]
+    apply String.toList_inj.1
+    cases it with
+    | kv k v => simp [Item.text]
+    | bare k => simp [Item.text]
+
+
+theorem filterMap_items (env : List (String × String)) (items : List Item) :
+    (items.map Item.val).filterMap (Pipeline.resolveEnvItem env) = (items.map (resolveSeqItem (penvOf env))).map Item.val := by
+  induction items with
+  | nil => rfl
+  | cons it t ih => simp only [List.map_cons, List.filterMap_cons, pipeline_item, ih]
+
+/-- **pipeline_service_env.**  `resolveServicesEnvironment` on one service of the tree: a sequence-form `environment`
+    becomes the sequence of C16's `resolveSeqItem`s, in place; nothing else of the service changes. -/
+theorem pipeline_service_env (env : List (String × String)) (cfg : KVs) (items : List Item)
+    (h : Val.lookup "environment" cfg = some (seqVal items)) :
+    Pipeline.resolveServiceEnv env (.map cfg) =
+      .map (Val.insert "environment" (seqVal (items.map (resolveSeqItem (penvOf env)))) cfg) := by
+  unfold Pipeline.resolveServiceEnv
+  simp only [h, seqVal, filterMap_items]
+
+theorem lookup_map_services (f : Val → Val) (n : String) (svcs : KVs) :
+    Val.lookup n (svcs.map fun kv => (kv.1, f kv.2)) = (Val.lookup n svcs).map f := by
+  induction svcs with
+  | nil => rfl
+  | cons e r ih =>
+    obtain ⟨k, v⟩ := e
+    by_cases hk : n = k
+    · simp [Val.lookup, hk]
+    · simp [Val.lookup, hk, ih]
+
+theorem lookup_services_resolveSection (sect carrier : String) (env : Secrets.Env) (dict : KVs) (h : "services" ≠ sect) :
+    Val.lookup "services" (Secrets.resolveSection sect carrier env dict) = Val.lookup "services" dict := by
+  unfold Secrets.resolveSection
+  split
+  · exact Val.lookup_insert_ne h _ _
+  · rfl
+
+/-- what the last stage of `loadYamlModel` (`ResolveEnvironment`) does to service `n` of the model -/
+theorem pipeline_resolveEnvironment_service (env : List (String × String)) (dict svcs cfg : KVs) (items : List Item)
+    (n : String) (hs : Val.lookup "services" dict = some (.map svcs)) (hn : Val.lookup n svcs = some (.map cfg))
+    (he : Val.lookup "environment" cfg = some (seqVal items)) :
+    ∃ svcs', Val.lookup "services" (Pipeline.resolveEnvironment env dict) = some (.map svcs') ∧
+      Val.lookup n svcs' = some (.map (Val.insert "environment" (seqVal (items.map (resolveSeqItem (penvOf env)))) cfg)) := by
+  refine ⟨svcs.map fun kv => (kv.1, Pipeline.resolveServiceEnv env kv.2), ?_, ?_⟩
+  · unfold Pipeline.resolveEnvironment Secrets.resolveConfigsEnv Secrets.resolveSecretsEnv
+    rw [lookup_services_resolveSection _ _ _ _ (by decide), lookup_services_resolveSection _ _ _ _ (by decide)]
+    unfold Pipeline.resolveServicesEnv
+    simp only [hs]
+    exact Val.lookup_insert_self _ _ _
+  · rw [lookup_map_services, hn, Option.map_some, pipeline_service_env env cfg items he]
+
+theorem out_bind_ok {α β : Type} {x : Pipeline.Out α} {f : α → Pipeline.Out β} {b : β} (h : x.bind f = .ok b) :
+    ∃ a, x = .ok a ∧ f a = .ok b := by
+  cases x with
+  | ok a => exact ⟨a, rfl, h⟩
+  | err e => cases h
+  | panic s => cases h
+
+/-- **pipeline_load_env_clause.**  The clause of C16 about the *whole composed function* `Pipeline.load` (every option
+    combination, any list of documents; normalization off — with it `C11.normalize` follows and resolves the same
+    entries once more): the returned model is `ResolveEnvironment` of the model that left the path stage, so for every
+    service whose `environment` reached that point in sequence form, each element whose whole text names a variable of
+    the project environment has become `text=value` (C16's `resolveSeqItem`), the others are unchanged, in order. -/
+theorem pipeline_load_env_clause (c : Pipeline.Cfg) (docs : List KVs) (out : KVs)
+    (hskip : c.opts.skipNormalization = true) (h : Pipeline.load c docs = .ok out) :
+    ∃ dict, out = Pipeline.resolveEnvironment c.env dict ∧
+      ∀ (svcs cfg : KVs) (items : List Item) (n : String), Val.lookup "services" dict = some (.map svcs) →
+        Val.lookup n svcs = some (.map cfg) → Val.lookup "environment" cfg = some (seqVal items) →
+        ∃ svcs', Val.lookup "services" out = some (.map svcs') ∧
+          Val.lookup n svcs' = some (.map (Val.insert "environment" (seqVal (items.map (resolveSeqItem (penvOf c.env)))) cfg)) := by
+  unfold Pipeline.load at h
+  split at h
+  · cases h
+  · obtain ⟨m, hm, hfin⟩ := out_bind_ok h
+    unfold Pipeline.loadYamlModel at hm
+    obtain ⟨d0, hd0, hfm⟩ := out_bind_ok hm
+    unfold Pipeline.finishModel at hfm
+    obtain ⟨d1, hd1, h1⟩ := out_bind_ok hfm
+    obtain ⟨d2, hd2, h2⟩ := out_bind_ok h1
+    obtain ⟨d3, hd3, h3⟩ := out_bind_ok h2
+    unfold Pipeline.envStage at h3
+    split at h3
+    · rename_i kvs
+      simp only [Pipeline.Out.ok.injEq] at h3
+      unfold Pipeline.finishLoad at hfin
+      simp only [hskip, if_true] at hfin
+      split at hfin
+      · cases hfin
+      · split at hfin
+        · cases hfin
+        · simp only [Pipeline.Out.ok.injEq] at hfin
+          subst hfin
+          subst h3
+          exact ⟨kvs, rfl, fun svcs cfg items n hs hn he =>
+            pipeline_resolveEnvironment_service c.env kvs svcs cfg items n hs hn he⟩
+    · cases h3
+
+
+theorem envLookup_penvOf (env : List (String × String)) (s : String) :
+    lookup s.toList (penvOf env) = (C11.envLookup env s).map String.toList := by
+  induction env with
+  | nil => rfl
+  | cons e r ih =>
+    obtain ⟨k, b⟩ := e
+    by_cases h : s = k
+    · subst h; simp [penvOf, lookup, C11.envLookup]
+    · have h' : ¬ k.toList = s.toList := fun e => h (String.toList_inj.1 e).symm
+      simp only [penvOf, List.map_cons, lookup, h', if_false, C11.envLookup, h]
+      exact ih
+
+
+/-- **normalize_item.**  `Normalize`'s `resolve(e, fn, keepEmpty = true)` on one element of the sequence form, as C11's
+    model (the stage inside `Pipeline.load`) has it on the tree, is C16's `normalizeItem` — for elements tokenised at
+    their first `=` (the key contains none). -/
+theorem normalize_item (env : List (String × String)) (it : Item) (hk : '=' ∉ it.key) :
+    C11.resolveStr env true (String.ofList it.text) = ((normalizeItem (penvOf env) it).val, true) := by
+  unfold C11.resolveStr C11.containsChar
+  cases it with
+  | kv k v => simp [Item.text, normalizeItem, Item.val]
+  | bare k =>
+    have hc : (String.ofList k).toList.contains '=' = false := by
+      simpa [Item.key] using hk
+    have hl := envLookup_penvOf env (String.ofList k)
+    simp only [String.toList_ofList] at hl
+    simp only [hc, Bool.false_eq_true, if_false, Item.text, normalizeItem, hl]
+    cases hf : C11.envLookup env (String.ofList k) with
+    | none => simp [Item.val, Item.text]
+    | some found =>
+      simp only [Option.map_some, Item.val, Item.text, Prod.mk.injEq, Val.str.injEq, and_true]
+      apply String.toList_inj.1
+      simp
+
+theorem normalize_items (env : List (String × String)) (items : List Item) (hk : ∀ it ∈ items, '=' ∉ it.key) :
+    C11.resolveList env true (items.map Item.val) = (items.map (normalizeItem (penvOf env))).map Item.val := by
+  induction items with
+  | nil => simp [C11.resolveList]
+  | cons it t ih =>
+    have h1 := normalize_item env it (hk it (by simp))
+    simp only [List.map_cons, C11.resolveList, Item.val, C11.resolve] at h1 ⊢
+    rw [h1]
+    simp only [List.cons.injEq, true_and]
+    exact ih fun i hi => hk i (by simp [hi])
+
+
+theorem normalize_pairs_tree (env : List (String × String)) (kvs : List (Key × Option Str)) :
+    C11.resolveKVs env true (mapVal kvs) = mapVal (kvs.map (normalizePair (penvOf env))) := by
+  induction kvs with
+  | nil => rfl
+  | cons kv t ih =>
+    obtain ⟨k, v⟩ := kv
+    cases v with
+    | some x => simp only [mapVal, List.map_cons, C11.resolveKVs, normalizePair] at ih ⊢; rw [ih]
+    | none =>
+      have hl := envLookup_penvOf env (String.ofList k)
+      simp only [String.toList_ofList] at hl
+      simp only [mapVal, List.map_cons, C11.resolveKVs, normalizePair, hl] at ih ⊢
+      cases hf : C11.envLookup env (String.ofList k) with
+      | none => simp only [Option.map_none, if_true]; rw [ih]
+      | some found => simp only [Option.map_some, String.ofList_toList]; rw [ih]
+
+
+theorem resolveSeqItem_key (penv : List (Key × Str)) (it : Item) : (resolveSeqItem penv it).key = it.key := by
+  unfold resolveSeqItem
+  cases lookup it.text penv <;> cases it <;> rfl
+
+/-- **pipeline_two_stages_seq.**  The two stages of `Pipeline.load` that touch a sequence-form `environment` —
+    `ResolveEnvironment` at the end of `loadYamlModel`, then `Normalize`'s `resolve(…, keepEmpty = true)` — composed on the
+    tree are C16's `normalizeEnv ∘ resolveSeqEnv` (what `loadedEnv` decodes), element by element and in order. -/
+theorem pipeline_two_stages_seq (env : List (String × String)) (items : List Item) (hk : ∀ it ∈ items, '=' ∉ it.key) :
+    (C11.resolve env true (seqVal (items.map (resolveSeqItem (penvOf env))))).1 =
+      seqVal ((items.map (resolveSeqItem (penvOf env))).map (normalizeItem (penvOf env))) := by
+  simp only [seqVal, C11.resolve]
+  rw [normalize_items]
+  intro it hit
+  obtain ⟨i0, hi0, rfl⟩ := List.mem_map.1 hit
+  rw [resolveSeqItem_key]
+  exact hk i0 hi0
+
+/-- **pipeline_normalize_map.**  … and on the mapping form (which `ResolveEnvironment` leaves alone) `Normalize` is
+    C16's `normalizePair` on every entry: `k:` (null) takes the project environment's value, else stays null. -/
+theorem pipeline_normalize_map (env : List (String × String)) (kvs : List (Key × Option Str)) :
+    (C11.resolve env true (.map (mapVal kvs))).1 = .map (mapVal (kvs.map (normalizePair (penvOf env)))) := by
+  simp only [C11.resolve]
+  rw [normalize_pairs_tree]
+
+end PipelineBridge
 
 end CV.EnvLayers
